@@ -105,7 +105,12 @@ func checkWriter(ops []setOp) error {
 			}
 			continue
 		case "bytes":
-			c.SetBytes(op.Tag, op.Value)
+			// the caller's buffer is its own again once SetBytes returned: it is wiped (a secret) or re-used (a scratch buffer)
+			scratch := append([]byte{}, op.Value...)
+			c.SetBytes(op.Tag, scratch)
+			for i := range scratch {
+				scratch[i] ^= 0xA5
+			}
 		case "string":
 			c.SetString(op.Tag, string(op.Value))
 		case "byte":
@@ -122,10 +127,17 @@ func checkWriter(ops []setOp) error {
 	wire := c.BytesBuffer().Bytes()
 	wire = append([]byte{}, wire...)
 
-	// (0) the container itself answers with what was set
+	// (0) the container itself answers with what was set - also after a caller scribbled over an earlier answer
 	for tag, want := range model {
-		if got := c.GetBytes(tag); !bytes.Equal(got, want) {
-			return fmt.Errorf("before serialising: GetBytes(%d) len %d, want len %d", tag, len(got), len(want))
+		got := c.GetBytes(tag)
+		if !bytes.Equal(got, want) {
+			return fmt.Errorf("before serialising: GetBytes(%d) len %d, want len %d (first difference at %d)", tag, len(got), len(want), firstDiff(got, want))
+		}
+		for i := range got {
+			got[i] ^= 0x5A
+		}
+		if again := c.GetBytes(tag); !bytes.Equal(again, want) {
+			return fmt.Errorf("GetBytes(%d) returns storage of the container: after the caller changed the returned slice the value differs at %d", tag, firstDiff(again, want))
 		}
 	}
 	// (1) round trip through hc's own parser
